@@ -3,7 +3,14 @@
 Mode C (operation differential) + D (regenerated range tables):  random and boundary requests per vendor / speed
 grade are run through the real clocking classes (compute_config + do_finalize, parameters read from the emitted
 Instance) and through the Lean model (`call`), and compared; an exact-rational oracle that does not depend on the
-model recomputes `Valid` on every real answer and searches the declared grid on every refusal."""
+model recomputes `Valid` on every real answer and searches the declared grid on every refusal.
+
+Session 2: after do_finalize EVERY item of the emitted primitive (parameters, port connections, attributes; c20emit.py)
+is read back and compared (a) with an expectation computed from the captured compute_config() result + the request only
+(`expect_*`, oracle side) and (b) with the complete item list of the Lean model (`...Emit`, answer suffix " || ...");
+the clock-domain wiring (buffer primitive per output, reset synchroniser) is checked by object identity; directed grids
+(`directed()`) use every output port / source selector / phase class of a primitive.  GW5A and Efinix Trion are tied
+to Lean models (float-borderline requests stay oracle-only), CologneChip CC_PLL has a request-legality model."""
 import os, json, time
 import c20lib as L
 
